@@ -301,7 +301,7 @@ func (c *Check) Finish(verifDir string, meta PropMeta, seed int, extra map[strin
 	}
 	if c.P != nil {
 		cov["packages_loaded"] = c.P.NumPkgs
-		cov["rpc_functions_analysed"] = len(c.P.Fns)
+		cov["rpc_functions_analysed"] = len(c.P.AllFns)
 		cov["program_functions"] = c.P.AllFuncs
 		cov["repo"] = c.P.Dir
 		if len(c.P.Roles) > 0 {
